@@ -15,7 +15,8 @@ CONSTANTS NSubs,            \* subscribers are numbered 1..NSubs by their caller
           B,                \* per-subscriber buffer capacity (50 in the code)
           Progs,            \* Progs[c]: the operations of client c: [op |-> "sub", s, kind] | [op |-> "batch", key] | [op |-> "close"]
           Interval, MaxNow, \* the batching interval; clock bound of the exhaustive configurations
-          DepartFix         \* TRUE: repaired code - a departing forwarder signals a per-subscriber channel before taking the lock
+          DepartFix,        \* TRUE: repaired code - a departing forwarder signals a per-subscriber channel before taking the lock
+          SkipEndedSubscriber  \* TRUE: defective variant - Subscribe does not register a subscriber whose context has already ended
 
 Subs == 1..NSubs
 Clients == 1..Len(Progs)
@@ -26,7 +27,7 @@ VARIABLES lock,             \* 0 free, 1 held by execute
           qstop, qclosed,   \* the processor was told to stop / queue.Close() has returned
           q,                \* the processor's pending items [key, v, due]
           now,
-          sst,              \* subscriber: "unsub" | "active" | "dropped"
+          sst,              \* subscriber: "unsub" | "active" | "dropped" (batcher closed) | "skipped" (defective variant)
           sid,              \* its internal id (-1: none), assigned in lock order
           kind,             \* its reader: "prompt" (always takes) | "stalled" (never) | "gated" (takes when rdy)
           rdy,              \* the reader is waiting on its channel
@@ -75,6 +76,10 @@ Finish(c) == /\ cpc' = [cpc EXCEPT ![c] = "idle"] /\ cip' = [cip EXCEPT ![c] = @
 Subscribe(c) == /\ cpc[c] = "sub" /\ lock = 0                                   \* batcher.go:66-112 (never blocks inside: one step)
                 /\ LET s == cop[c].s IN
                    IF closed THEN /\ sst' = [sst EXCEPT ![s] = "dropped"] /\ UNCHANGED <<eventChs, wg, fpc, sid, nextId>>
+                   ELSE IF SkipEndedSubscriber /\ ctxDone[s]
+                             THEN /\ sst' = [sst EXCEPT ![s] = "skipped"] /\ UNCHANGED <<eventChs, wg, fpc, sid, nextId>>
+                             \* a subscriber whose context has already ended is registered like any other: its forwarder
+                             \* sees the context done, closes the subscriber's channel and unregisters
                              ELSE /\ eventChs' = Append(eventChs, s) /\ wg' = wg + 1
                                   /\ sid' = [sid EXCEPT ![s] = nextId] /\ nextId' = nextId + 1
                                   /\ fpc' = [fpc EXCEPT ![s] = "wait"] /\ sst' = [sst EXCEPT ![s] = "active"]
@@ -130,7 +135,8 @@ FwdDone(s) == /\ fpc[s] = "unregd" /\ wg' = wg - 1 /\ fpc' = [fpc EXCEPT ![s] = 
               /\ UNCHANGED <<lock, closeCh, closed, eventChs, nextId, qstop, qclosed, q, now, sst, sid, kind, rdy, buf, depart, ctxDone, hand, recvd,
                              chClosed, epc, eidx, eval, order, cpc, cip, cop, nextV, closeRet>>
 
-(* the processor: pops a due item and calls execute - processor.go:220-240, batcher.go:125-139 *)
+(* the processor: pops a due item and calls execute; the value goes to the subscribers registered when execute takes the
+   lock (eventChs then), whether or not they were there when it was batched - processor.go:220-240, batcher.go:125-139 *)
 EPop == /\ epc = "idle" /\ ~qclosed
         /\ \E it \in q : /\ it.due - now < Early
                          /\ q' = q \ {it} /\ eval' = it.v
@@ -186,7 +192,11 @@ Spec == Init /\ [][Next]_vars /\ WF_vars(Internal) /\ WF_vars(Advance)
 
 IsSubseq(a, b) == \E f \in [1..Len(a) -> 1..Len(b)] : (\A i \in 1..Len(a) : b[f[i]] = a[i]) /\ (\A i, j \in 1..Len(a) : i < j => f[i] < f[j])
 CommonOrder == \A s \in Subs : IsSubseq(recvd[s], order)
-ChannelsClosedAtReturn == closeRet => \A s \in Subs : sst[s] = "active" => chClosed[s]
+(* every channel handed to Subscribe while the batcher was open is closed when Close returns ... *)
+Accepted(s) == sst[s] \in {"active", "skipped"}
+ChannelsClosedAtReturn == closeRet => \A s \in Subs : Accepted(s) => chClosed[s]
+(* ... and once its subscriber's context has ended *)
+DepartedClosed == \A s \in Subs : (Accepted(s) /\ ctxDone[s]) ~> chClosed[s]
 QuietAfterClose == [][closeRet => recvd' = recvd]_vars
 (* a departed subscriber never wedges delivery or Close *)
 CloseReturns == <>closeRet
